@@ -485,8 +485,10 @@ def counting_class(base, seq, log):
     """SimConnection subclass that counts handler invocations; the driver logic is untouched."""
     class Counting(base):
         def send_msg(self, msg, request_id, cb, *a, **kw):
+            from sim.env import current_world
+            w = current_world()
             ent = {'conn': self, 'rid': request_id, 'calls': [], 'cb': cb, 'msg': type(msg).__name__, 'accepted': False,
-                   'dead_at_send': bool(self.is_defunct or self.is_closed), 'seq': next(seq)}
+                   'dead_at_send': bool(self.is_defunct or self.is_closed), 'seq': next(seq), 't': w.now if w is not None else 0.0}
 
             def counted(arg, ent=ent, cb=cb):
                 ent['calls'].append((next(seq), arg, bool(self.is_defunct or self.is_closed)))
@@ -582,9 +584,10 @@ def run_session_case(ctx, seed, nodes, proto, acts, kind, pos, p_preempt):
                 applicable = False
         elif kind == 'heartbeat':
             ctl['hb_dead'] = True
+            ctl['t_dead'] = env.world.now
         if applicable:
             if kind == 'heartbeat':
-                env.world.advance_to(env.world.now + 2 * 2.0 + 1.0 + 0.5)
+                env.world.advance_to(env.world.now + 12.0)       # 2 s rounds: one to find the connection idle, the next sends the heartbeat; 1 s each to give up
             if seed % 3:
                 env.world.settle(advance=False)
             for a in acts[pos:]:
@@ -593,6 +596,22 @@ def run_session_case(ctx, seed, nodes, proto, acts, kind, pos, p_preempt):
                 h.release()
             env.world.settle(advance=False)
             if hb is not None:
+                # every connection (pool or control) whose heartbeat was sent to the silent node and whose round is over by now: the
+                # heartbeat failed, so the connection must have been failed (its handlers are then judged below like any other).
+                # A round judges its unanswered heartbeats one after the other, each within the heartbeat timeout (1 s): 3.5 s is beyond
+                # any round of the <= 3 connections to the silent node in this world.
+                with env.world.inspect():
+                    for ent in log:
+                        c = ent['conn']
+                        if ent['msg'] == 'OptionsMessage' and ent['accepted'] and not any(not isinstance(x[1], Exception) for x in ent['calls']) and str(c.endpoint.address) == addrs[0] \
+                                and ctl.get('t_dead') is not None and ent['t'] > ctl['t_dead'] and ent['t'] <= env.world.now - 3.5:
+                            info['heartbeats_unanswered'] = info.get('heartbeats_unanswered', 0) + 1
+                            if getattr(c, 'is_control_connection', False):
+                                info['heartbeats_unanswered_control'] = info.get('heartbeats_unanswered_control', 0) + 1
+                            if not (c.is_closed or c.is_defunct):
+                                viol.append(('connection-not-failed-after-heartbeat-failure', 'connection %d (%s%s) sent a heartbeat at t=%.2f that was never '
+                                             'answered; at t=%.2f it is neither defunct nor closed and the heartbeat handler was never invoked' % (
+                                                 c.sim_id, c.sim_creator, ', control' if getattr(c, 'is_control_connection', False) else '', ent['t'], env.world.now)))
                 hb._shutdown_event.set()
             env.world.advance_to(env.world.now + 4.0)
             env.world.settle(advance=False)
@@ -722,6 +741,8 @@ def run_session(ctx, budget_s):
                 ctx.count("session_answers_dispatched_inside_the_close_window", info.get('answered_in_close_window', 0))
                 if info.get('not_failed'):
                     ctx.count("session_injection_did_not_fail_connection")
+                ctx.count("session_heartbeats_never_answered_and_judged", info.get('heartbeats_unanswered', 0))
+                ctx.count("session_heartbeats_never_answered_on_the_control_connection", info.get('heartbeats_unanswered_control', 0))
                 seen = set()
                 for mech, what in viol:
                     if mech in seen:
@@ -855,6 +876,6 @@ def run(ctx):
     run_session(ctx, 38 if ctx.quick else 400)
     # floors are far below what an idle machine reaches (the box is shared): they only guarantee that every monitor was reached
     ctx.floor_distinct = 1000 if ctx.quick else 20000
-    ctx.floor_counters = {"direct_cases": 1000, "direct_failures_with_more_than_threshold_outstanding": 10, "direct_outstanding_handlers_at_failure": 1500, "direct_live_paging_sessions_at_failure": 150,
+    ctx.floor_counters = {"session_heartbeats_never_answered_and_judged": 60, "session_heartbeats_never_answered_on_the_control_connection": 20, "direct_cases": 1000, "direct_failures_with_more_than_threshold_outstanding": 10, "direct_outstanding_handlers_at_failure": 1500, "direct_live_paging_sessions_at_failure": 150,
                           "direct_sends_after_failure": 1500, "session_cases": 100, "session_handlers_errored_by_failure": 80,
                           "session_sends_after_failure_refused": 80, "preemption_cases": 20}
